@@ -608,6 +608,7 @@ type sweepCase struct {
 	Minimal  bool   `json:"minimal_tags"`
 	Min, Max int    `json:"-"` // heartbeat limits of the accepting session (0,0 = the default 5..30)
 	Limits   string `json:"limits,omitempty"`
+	Relogon  string `json:"relogon,omitempty"` // "peer" | "local": initiator, second logon after a logout exchange
 }
 
 var sweepHBs = []string{"-1", "0", "1", "4", "5", "6", "29", "30", "31", "61", "3600", "86400", "2147483647", "2147483648", "4294967296", "4294967301",
@@ -615,6 +616,32 @@ var sweepHBs = []string{"-1", "0", "1", "4", "5", "6", "29", "30", "31", "61", "
 	"27670116115", "36893488148", "36893488153", "9223372036854775807", "9223372036854775808", "18446744073709551621"}
 
 func sweepRun(prop string, c sweepCase) (string, string) {
+	if c.Relogon != "" {
+		// the second logon of an initiating session: logon, a logout exchange (begun by the peer or locally), then
+		// the application asks for a logon again and the peer answers it
+		w := newWorld(wcfg{Role: "ini", Buf: 10, HbInt: 30})
+		w.logonOK(30)
+		if !w.s.IsLogged() {
+			return "setup:not-logged", ""
+		}
+		if c.Relogon == "local" {
+			_ = w.s.Logout()
+			vsched.Settle()
+		}
+		w.in(w.msg("5"))
+		w.take()
+		_ = w.s.LogonRequest()
+		vsched.Settle()
+		outs := w.take()
+		if countType(outs, "A") != 1 || len(outs) != 1 {
+			return "relogon:logon-request-not-sent", fmt.Sprintf("LogonRequest after a completed logout (%s): outs=[%s]", c.Relogon, outsStr(outs))
+		}
+		w.in(w.msg("A", "98=0", "108=30"))
+		if !w.s.IsLogged() || w.logonEv != 2 {
+			return "relogon:not-logged-on", fmt.Sprintf("IsLogged=%v logon events=%d", w.s.IsLogged(), w.logonEv)
+		}
+		return "", ""
+	}
 	lo, hi := 5, 30
 	if c.Limits != "" {
 		fmt.Sscanf(c.Limits, "%d..%d", &lo, &hi)
@@ -672,7 +699,7 @@ func runLogonSweep(R *vlib.Out, prop string) {
 		R.Eval()
 		sig, d, steps := execBody(func() (string, string) { return sweepRun(prop, c) })
 		R.Transitions += int64(steps)
-		key := fmt.Sprintf("sweep/%s/%q/%v/%s", c.HB, c.Method, c.Minimal, c.Limits)
+		key := fmt.Sprintf("sweep/%s/%q/%v/%s/%s", c.HB, c.Method, c.Minimal, c.Limits, c.Relogon)
 		R.State(key)
 		R.ClassU(key)
 		R.Outcome("sweep")
@@ -687,6 +714,14 @@ func runLogonSweep(R *vlib.Out, prop string) {
 		return
 	}
 	unit := 0
+	if prop == "C06" {
+		for _, how := range []string{"peer", "local"} {
+			unit++
+			if vlib.Mine(unit) {
+				one(sweepCase{Scenario: "logon-sweep", Relogon: how})
+			}
+		}
+	}
 	// limits that admit exactly one interval (Min = Max)
 	for _, lim := range []string{"30..30", "1..1"} {
 		for _, hb := range []string{"0", "1", "2", "29", "30", "31"} {
